@@ -155,6 +155,12 @@ def _scan_write_sites():
                     and node.func.attr in mutators
                 ):
                     sites.add((rel, node.lineno))
+                if isinstance(node, (ast.With, ast.Try)) and isinstance(node, ast.With):
+                    # a `with` block usually means "state changed for the
+                    # duration of the block and restored afterwards"
+                    sites.add((rel, node.lineno))
+                    for stmt in node.body:
+                        sites.add((rel, stmt.lineno))
     return sites
 
 
